@@ -10,7 +10,7 @@ from vlib.core import Failure
 
 PROP = "C20"
 RULE = (
-    "a case is (field list <= 4, container list|dict, boundary explicit|random). Names/filenames: (a) every string of "
+    "a case is (field list <= 4, container list|dict, boundary explicit|random, entry point encode_multipart_formdata | RequestMethods.request_encode_body(fields=...) with the caller's headers absent / pool-level / dict / HTTPHeaderDict (without a Content-Type of their own), fresh or already used for an earlier multipart request). Names/filenames: (a) every string of "
     "<= L symbols (L=2 quick, 3 thorough) over the hostile alphabet {\" CR LF ; \\ % e-acute -- = SP} used as name and "
     "as filename in each input form (distinct by construction); (b) Hypothesis-generated lists with names/filenames "
     "from that alphabet plus ordinary text, values str or bytes incl. CRLF, dash runs and boundary-like prefixes, input "
@@ -122,26 +122,80 @@ def check_case(case) -> list[Failure]:
             raise core.InvalidCase
     fields = build_fields(case)
     exp = expected_parts(case)
+    via = case.get("via", "encoder")
+    if via == "request":
+        return _via_request(case, fields, exp, boundary)
+    if via != "encoder":
+        raise core.InvalidCase
     try:
         body, ctype = encode_multipart_formdata(fields, boundary=boundary)
     except Exception as e:  # noqa: BLE001
         return [Failure("encodes", {"exc": type(e).__name__}, f"encode_multipart_formdata raised {type(e).__name__}: {e}")]
+    return _verify(case, body, ctype, boundary, exp, {})
+
+
+HSTYLES = ["none", "pool", "dict", "hd"]
+
+
+def _via_request(case, fields, exp, boundary):
+    """The same encoder reached through RequestMethods.request_encode_body(fields=...): the body and the Content-Type
+    header handed to urlopen() are judged like the encoder's return value.  `reuse`: the caller's header object has
+    already been used for an earlier multipart request with another boundary."""
+    from urllib3._collections import HTTPHeaderDict
+    from urllib3._request_methods import RequestMethods
+
+    hstyle, reuse = case.get("hstyle", "none"), bool(case.get("reuse"))
+    if hstyle not in HSTYLES:
+        raise core.InvalidCase
+
+    class Rec(RequestMethods):
+        def __init__(self, headers=None):
+            super().__init__(headers)
+            self.calls = []
+
+        def urlopen(self, method, url, body=None, headers=None, **kw):
+            self.calls.append((body, headers))
+
+    # (a Content-Type the caller supplies itself is kept by request_encode_body - setdefault - and is the caller's
+    #  business; the header sets used here carry none)
+    base = {"X-App": "1"}
+    rm = Rec(headers=dict(base) if hstyle == "pool" else None)
+    hdrs = None if hstyle in ("none", "pool") else (dict(base) if hstyle.startswith("dict") else HTTPHeaderDict(base))
+    sig = {"via": "request", "hstyle": hstyle, "reuse": reuse}
+    try:
+        if reuse:
+            rm.request_encode_body("POST", "/first", fields=[("k", "v")], headers=hdrs, multipart_boundary="earlier-boundary-0001")
+        rm.request_encode_body("POST", "/x", fields=fields, headers=hdrs, multipart_boundary=boundary)
+    except Exception as e:  # noqa: BLE001
+        return [Failure("encodes", {**sig, "exc": type(e).__name__}, f"request_encode_body raised {type(e).__name__}: {e}")]
+    body, sent = rm.calls[-1]
+    cts = [v for k, v in (sent.items() if sent is not None else []) if k.lower() == "content-type"]
+    if len(cts) != 1:
+        return [Failure("content-type", {**sig, "kind": "header-count"}, f"the request carries {len(cts)} Content-Type headers: {cts!r}")]
+    if not isinstance(body, bytes):
+        return [Failure("encodes", {**sig, "exc": "body-type"}, f"body handed to urlopen is {type(body).__name__}")]
+    if hstyle != "none" and "x-app" not in {k.lower() for k in sent}:
+        return [Failure("content-type", {**sig, "kind": "other-header-lost"}, f"the caller's other header is gone: {dict(sent)!r}")]
+    return _verify(case, body, cts[0], boundary, exp, sig)
+
+
+def _verify(case, body, ctype, boundary, exp, sig):
     fails = []
     prefix = "multipart/form-data; boundary="
     if not isinstance(ctype, str) or not ctype.startswith(prefix):
-        return [Failure("content-type", {}, f"content type {ctype!r}")]
+        return [Failure("content-type", {**sig}, f"content type {ctype!r}")]
     b = ctype[len(prefix) :]
     if boundary is not None and b != boundary:
-        fails.append(Failure("content-type", {"kind": "boundary-differs"}, f"content type names boundary {b!r}, requested {boundary!r}"))
+        fails.append(Failure("content-type", {**sig, "kind": "boundary-differs"}, f"content type names boundary {b!r}, requested {boundary!r}"))
     if not b or any(ch in b for ch in ' \r\n";'):
-        fails.append(Failure("content-type", {"kind": "boundary-shape"}, f"boundary {b!r}"))
+        fails.append(Failure("content-type", {**sig, "kind": "boundary-shape"}, f"boundary {b!r}"))
     try:
         parts = wire.parse_multipart(body, b.encode("latin-1"))
     except wire.WireError as e:
-        fails.append(Failure("strict-parse", {}, f"body does not parse: {e}; body={body[:300]!r}"))
+        fails.append(Failure("strict-parse", {**sig}, f"body does not parse: {e}; body={body[:300]!r}"))
         return fails
     if len(parts) != len(exp):
-        fails.append(Failure("part-count", {}, f"{len(parts)} parts parsed, {len(exp)} fields given; body={body[:300]!r}"))
+        fails.append(Failure("part-count", {**sig}, f"{len(parts)} parts parsed, {len(exp)} fields given; body={body[:300]!r}"))
         return fails
     for i, (p, (eh, ed)) in enumerate(zip(parts, exp)):
         if p.headers != eh:
@@ -241,7 +295,10 @@ def _hyp_cases():
                     seen.add(f["name"])
                     uniq.append(f)
             fields = uniq
-        return {"kind": "mp", "fields": fields, "container": container, "boundary": bnd}
+        c = {"kind": "mp", "fields": fields, "container": container, "boundary": bnd}
+        if draw(st.integers(0, 3)) == 0:
+            c.update(via="request", hstyle=draw(st.sampled_from(HSTYLES)), reuse=draw(st.booleans()))
+        return c
 
     return case()
 
@@ -292,6 +349,9 @@ def run_shard(spec):
             else:
                 f = {"name": "n", "form": "rf", "filename": s, "data": {"b": "v"}, "mime": "a/b", "location": "/l"}
             case = {"kind": "mp", "fields": [f, {"name": "tail", "form": "plain", "data": {"s": "t"}}], "container": "list", "boundary": "BOUND"}
+            kx = len(s) * 7 + sum(map(ord, s))
+            if kx % 3 == 0:
+                case.update(via="request", hstyle=HSTYLES[kx % len(HSTYLES)], reuse=bool(kx % 2))
             fails = check_case(case)
             col.case(case, nontrivial(case), ["exh:" + slot], fails, distinct_by_construction=True)
     else:
